@@ -20,7 +20,7 @@ inductive DVal
   | promise (id : Str)                          -- `decl.Promise(id)`
   | uuid (u : Str)                              -- `decl.UUIDReference(u)`
   | find (attrs : List (Str × DVal))            -- `decl.FindBy(attrs)`
-  | newobj (ty : Str) (kw : List (Str × DVal))  -- `NewObject(ty, **kw)`
+  | newobj (ty : DVal) (kw : List (Str × DVal)) -- `NewObject(ty, **kw)` (the hint is a `str`, but nothing checks it)
   | map (kvs : List (Str × DVal))               -- `dict` with `str` keys
   | list (l : List DVal)
   deriving Inhabited
@@ -28,11 +28,12 @@ inductive DVal
 inductive Node
   | scalar (tag : Str) (v : Str)
   | mapping (tag : Str) (kvs : List (Node × Node))
-  | seq (l : List Node)
+  | seq (tag : Str) (l : List Node)
   deriving Inhabited
 
 def tStr : Str := "str".toList
 def tMap : Str := "map".toList
+def tSeq : Str := "seq".toList
 def tPromise : Str := "!promise".toList
 def tUuid : Str := "!uuid".toList
 def tFind : Str := "!find".toList
@@ -44,6 +45,15 @@ def dictSet (k : Str) (v : DVal) : List (Str × DVal) → List (Str × DVal)
   | [] => [(k, v)]
   | (k', v') :: t => if k' = k then (k, v) :: t else (k', v') :: dictSet k v t
 
+/-- `bool(type_hint)` as far as the model can tell: empty strings and containers and `None` are falsy;
+other plain scalars (numbers, booleans) are treated as truthy — type hints are strings in practice -/
+def truthy : DVal → Bool
+  | .str s => !s.isEmpty
+  | .plain tag _ => tag != "null".toList
+  | .list l => !l.isEmpty
+  | .map kvs => !kvs.isEmpty
+  | _ => true
+
 mutual
 /-- `YDMDumper.represent_data` -/
 def represent : DVal → Node
@@ -53,17 +63,17 @@ def represent : DVal → Node
   | .uuid u => .scalar tUuid u                         -- represent_uuidref
   | .find attrs => .mapping tFind (representKvs attrs) -- represent_findby
   | .newobj ty kw =>                                   -- represent_newobj
-    .mapping tNew (if ty = [] then representKvs kw else representKvsType ty kw)
+    .mapping tNew (if truthy ty then representKvsType (represent ty) kw else representKvs kw)
   | .map kvs => .mapping tMap (representKvs kvs)
-  | .list l => .seq (representList l)
+  | .list l => .seq tSeq (representList l)
 def representKvs : List (Str × DVal) → List (Node × Node)
   | [] => []
   | (k, v) :: t => (.scalar tStr k, represent v) :: representKvs t
 /-- the pairs of `kw` with `_type` overwritten in place, or appended at the end -/
-def representKvsType (ty : Str) : List (Str × DVal) → List (Node × Node)
-  | [] => [(.scalar tStr kType, .scalar tStr ty)]
+def representKvsType (ty : Node) : List (Str × DVal) → List (Node × Node)
+  | [] => [(.scalar tStr kType, ty)]
   | (k, v) :: t =>
-    if k = kType then (.scalar tStr kType, .scalar tStr ty) :: representKvs t
+    if k = kType then (.scalar tStr kType, ty) :: representKvs t
     else (.scalar tStr k, represent v) :: representKvsType ty t
 def representList : List DVal → List Node
   | [] => []
@@ -109,13 +119,13 @@ def construct : Node → Except YErr DVal
         else if tag = tNew then                                   -- construct_newobj
           match popType d with
           | none => .error .valueError
-          | some (.str ty, rest) => .ok (.newobj ty rest)
-          | some (_, _) => .error .typeError
+          | some (ty, rest) => .ok (.newobj ty rest)
         else .ok (.map d)
-  | .seq l =>
-    match constructList l with
-    | .error e => .error e
-    | .ok l' => .ok (.list l')
+  | .seq tag l =>
+    if tag = tPromise || tag = tUuid || tag = tFind || tag = tNew then .error .typeError
+    else match constructList l with
+      | .error e => .error e
+      | .ok l' => .ok (.list l')
 def constructKvs : List (Node × Node) → Except YErr (List (Str × DVal))
   | [] => .ok []
   | (k, v) :: t =>
